@@ -24,19 +24,35 @@ const ANON = 1 << iota
 type MMap []byte
 
 type entry struct {
+	key  uintptr
 	disk *core.Disk
 	ino  *core.Inode
 	name string
 	n    int
 }
 
-var reg = map[uintptr]*entry{}
+// reg is a slice, not a map: see core.DirEnts.
+var reg []*entry
 
 // Reset forgets all mappings (between runs).
-func Reset() { reg = map[uintptr]*entry{} }
+//
+//go:norace
+func Reset() { reg = nil }
 
+//go:norace
+func lookup(key uintptr) *entry {
+	for _, e := range reg {
+		if e.key == key {
+			return e
+		}
+	}
+	return nil
+}
+
+//go:norace
 func Map(f *os.File, prot, flags int) (MMap, error) { return MapRegion(f, -1, prot, flags, 0) }
 
+//go:norace
 func MapRegion(f *os.File, length int, prot, flags int, offset int64) (MMap, error) {
 	if f == nil || f.Core() == nil {
 		return nil, errors.New("mmap: nil file")
@@ -53,23 +69,25 @@ func MapRegion(f *os.File, length int, prot, flags int, offset int64) (MMap, err
 		b = b[:length:length]
 	}
 	key := uintptr(unsafe.Pointer(&b[0]))
-	e := reg[key]
+	e := lookup(key)
 	if e == nil {
-		e = &entry{disk: cf.Disk(), ino: cf.Inode(), name: cf.Name()}
-		reg[key] = e
+		e = &entry{key: key, disk: cf.Disk(), ino: cf.Inode(), name: cf.Name()}
+		reg = append(reg, e)
 	}
 	e.n++
 	return MMap(b), nil
 }
 
+//go:norace
 func (m MMap) find() (*entry, uintptr) {
 	if len(m) == 0 {
 		return nil, 0
 	}
 	key := uintptr(unsafe.Pointer(&m[0]))
-	return reg[key], key
+	return lookup(key), key
 }
 
+//go:norace
 func (m MMap) Flush() error {
 	e, _ := m.find()
 	if e == nil {
@@ -81,15 +99,21 @@ func (m MMap) Flush() error {
 func (m MMap) Lock() error   { return nil }
 func (m MMap) Unlock() error { return nil }
 
+//go:norace
 func (m *MMap) Unmap() error {
-	e, key := m.find()
+	e, _ := m.find()
 	if e == nil {
 		return errors.New("mmap: unmap of unmapped region")
 	}
 	err := e.disk.UnmapInode(e.ino, e.name)
 	e.n--
 	if e.n == 0 {
-		delete(reg, key)
+		for i, x := range reg {
+			if x == e {
+				reg = append(reg[:i:i], reg[i+1:]...)
+				break
+			}
+		}
 	}
 	*m = nil
 	return err
